@@ -5,6 +5,7 @@ package main
 import (
 	"fmt"
 	"go/ast"
+	"go/token"
 	"go/types"
 	"strings"
 )
@@ -290,6 +291,116 @@ func (c *Ctx) runLiteralRawParse(r *Report, rule string, pkgs func(string) bool,
 		}
 		info := fn.Pkg.Info
 		ord := map[string]int{}
+		// locals that hold (a slice of) a literal's text
+		litText := map[types.Object]bool{}
+		isLitValue := func(e ast.Expr) bool {
+			for {
+				e = ast.Unparen(e)
+				if sl, ok := e.(*ast.SliceExpr); ok {
+					e = sl.X
+					continue
+				}
+				break
+			}
+			if id, ok := e.(*ast.Ident); ok {
+				return litText[info.Uses[id]]
+			}
+			if se, ok := e.(*ast.SelectorExpr); ok && se.Sel.Name == "Value" {
+				if nt := namedOf(derefType(info.TypeOf(se.X))); nt != nil && nt.Obj().Name() == "Literal" {
+					return true
+				}
+			}
+			return false
+		}
+		for changed := true; changed; {
+			changed = false
+			ast.Inspect(fn.Decl.Body, func(m ast.Node) bool {
+				if as, ok := m.(*ast.AssignStmt); ok && len(as.Lhs) == len(as.Rhs) {
+					for i := range as.Lhs {
+						if id, ok := as.Lhs[i].(*ast.Ident); ok && isLitValue(as.Rhs[i]) {
+							if o := info.ObjectOf(id); o != nil && !litText[o] {
+								litText[o] = true
+								changed = true
+							}
+						}
+					}
+				}
+				return true
+			})
+		}
+		// radix: under a guard Kind == TokenIntLiteral the text may be hexadecimal
+		var stack []ast.Node
+		ast.Inspect(fn.Decl.Body, func(m ast.Node) bool {
+			if m == nil {
+				stack = stack[:len(stack)-1]
+				return true
+			}
+			stack = append(stack, m)
+			call, ok := m.(*ast.CallExpr)
+			if !ok || len(call.Args) == 0 {
+				return true
+			}
+			f := calleeOf(info, call)
+			if f == nil || f.Pkg() == nil || f.Pkg().Path() != "strconv" || !isLitValue(call.Args[0]) {
+				return true
+			}
+			blind := f.Name() == "ParseFloat" || f.Name() == "Atoi"
+			if (f.Name() == "ParseInt" || f.Name() == "ParseUint") && len(call.Args) >= 2 {
+				if v, ok := constInt(info, call.Args[1]); ok && v == 10 {
+					blind = true
+				}
+			}
+			if !blind {
+				return true
+			}
+			intGuard := false
+			for i := len(stack) - 2; i >= 0; i-- {
+				if ifs, ok := stack[i].(*ast.IfStmt); ok && i+1 < len(stack) && stack[i+1] == ast.Node(ifs.Body) {
+					ast.Inspect(ifs.Cond, func(k ast.Node) bool {
+						if be, ok := k.(*ast.BinaryExpr); ok && be.Op == token.EQL && irConstNameAny(info, be.Y) == "TokenIntLiteral" {
+							intGuard = true
+						}
+						return true
+					})
+				}
+			}
+			if !intGuard {
+				return true
+			}
+			n++
+			cons := fn.id() + ":radix:" + f.Name()
+			ord[cons]++
+			if ord[cons] > 1 {
+				cons += "#" + itoa(ord[cons])
+			}
+			// fine when the same guarded block also handles the hexadecimal spelling
+			handlesHex := false
+			for i := len(stack) - 2; i >= 0 && !handlesHex; i-- {
+				if ifs, ok := stack[i].(*ast.IfStmt); ok {
+					ast.Inspect(ifs.Body, func(k ast.Node) bool {
+						if bl, ok := k.(*ast.BasicLit); ok && (strings.Contains(bl.Value, "0x") || strings.Contains(bl.Value, "0X")) {
+							handlesHex = true
+						}
+						if c2, ok := k.(*ast.CallExpr); ok && len(c2.Args) >= 2 {
+							if g := calleeOf(info, c2); g != nil && (g.Name() == "ParseInt" || g.Name() == "ParseUint") {
+								if v, ok := constInt(info, c2.Args[1]); ok && (v == 0 || v == 16) {
+									handlesHex = true
+								}
+							}
+						}
+						return !handlesHex
+					})
+				}
+			}
+			if handlesHex {
+				r.ok(rule, cons, c.pos(call.Pos()), "hexadecimal handled in the same block")
+			} else if exceptions[cons] != "" {
+				r.exc(rule, cons, c.pos(call.Pos()), exceptions[cons])
+			} else {
+				r.viol(rule, cons, c.pos(call.Pos()), fn.id()+" parses the text of an INTEGER literal with "+f.Name()+" in base 10 only: a hexadecimal literal (0x10) is a valid WGSL integer and fails here although the decimal spelling of the same value works")
+			}
+			return true
+		})
 		ast.Inspect(fn.Decl.Body, func(m ast.Node) bool {
 			call, ok := m.(*ast.CallExpr)
 			if !ok || len(call.Args) == 0 {
@@ -336,4 +447,14 @@ func (c *Ctx) runLiteralRawParse(r *Report, rule string, pkgs func(string) bool,
 		})
 	}
 	r.inst("literal.parses", n)
+}
+
+func derefType(t types.Type) types.Type {
+	if t == nil {
+		return nil
+	}
+	if p, ok := t.Underlying().(*types.Pointer); ok {
+		return p.Elem()
+	}
+	return t
 }
